@@ -34,7 +34,8 @@ func VerifAvailable(u *Upstream) bool { return u.available() }
 func VerifTotalConns(u *Upstream) int { return u.totalConns() }
 func VerifLeastConns(us []*Upstream) *Upstream { return leastConns(us) }
 func VerifHostByHashing(pool []*Upstream, s string) *Upstream { return hostByHashing(pool, s) }
-func VerifSetRobin(r *RoundRobinSelection, v uint32) { atomic.StoreUint32(&r.robin, v) }
+// VerifRobinPtr hands out the round-robin counter (set with vapi.SetU32, whatever its integer type).
+func VerifRobinPtr(r *RoundRobinSelection) interface{} { return &r.robin }
 func VerifSetPeer(u *Upstream, i int, s VerifPeerState) {
 	atomic.StoreInt32(&u.peers[i].numConns, s.NumConns)
 	atomic.StoreInt32(&u.peers[i].unhealthy, s.Unhealthy)
